@@ -47,9 +47,10 @@ def gen_scenario(rng, sid, base, inside_dir=False, small=False):
 
 
 def gen_long_scenario(rng, sid, base, inside_dir=False):
-    """victims whose base name is 230..255 bytes long (temp_file() appends 25 bytes: from 231 on the temporary name exceeds
-    NAME_MAX and rename/open fail with ENAMETOOLONG), each with pre-existing UNRELATED siblings <N>. and <N>.t where such a
-    name can exist: nothing may ever happen to those, and the victims must stay intact when the command fails."""
+    """victims whose base name is 230..255 bytes long (temp_file() appends 25 bytes; since fix d75e85d a name longer than 230
+    bytes is shortened first, before that the temporary name exceeded NAME_MAX and rename/open failed with ENAMETOOLONG), each
+    with pre-existing UNRELATED siblings <N>. and <N>.t where such a name can exist: nothing may ever happen to those, and the
+    victims must stay intact when the command fails."""
     content = bytes([97 + rng.below(26) for _ in range(5 + rng.below(20))]) + b"L"
     lens = [254, 255, 231 + rng.below(23), 230]
     dirs = ["b", "b", "c", "c"]
